@@ -404,7 +404,6 @@ struct Cfg {
 // the exact scale 2^-20 (9.5e-7) is used instead so that the integer oracle is
 // exact for the coordinates the library really sees.
 static const double kScales[4] = {1.0, 1e-6, 0x1p-20, 1e6};
-static const char* kScaleTxt[4] = {"1", "1e-6", "2^-20", "1e6"};
 static const Cfg JCFG[9] = {
     {1.0, -1, 0, "scale=1;eps=-1"},          {1.0, 0, 0, "scale=1;eps=0"},
     {1.0, 1e-9, 0, "scale=1;eps=1e-9"},      {1e-6, -1, 1, "scale=1e-6;eps=-1"},
@@ -451,9 +450,9 @@ static bool callLib(const PolygonsIdx& polys, double eps, bool convex, std::vect
   }
 }
 
-// Run one polygon set through the library.  nTerm: how many of the TCFG
+// Run one polygon set through the library.  tMask: which of the TCFG
 // configurations an invalid input is run under.
-static void runSet(Ctx& c, const PSet& s, const SetInfo& si, int nTerm = 4, int onlyT = -1) {
+static void runSet(Ctx& c, const PSet& s, const SetInfo& si, unsigned tMask = 0xF) {
   const std::string ps = "tri:polys=" + setStr(s) + ";";
   Flat f;
   flatten(s, f);
@@ -467,8 +466,8 @@ static void runSet(Ctx& c, const PSet& s, const SetInfo& si, int nTerm = 4, int 
   };
   if (!si.valid) {
     PolygonsIdx in = buildIdx(s, 1.0);
-    for (int k = 0; k < nTerm; ++k) {
-      if (onlyT >= 0 && k != onlyT) continue;
+    for (int k = 0; k < 4; ++k) {
+      if (!(tMask >> k & 1)) continue;
       std::string key = ps + TCFG[k].txt;
       c.describe(key);
       c.count("lib_calls");
@@ -478,7 +477,7 @@ static void runSet(Ctx& c, const PSet& s, const SetInfo& si, int nTerm = 4, int 
       }
       std::string why = judge(t, f, si, false);
       if (!why.empty()) V(key, why, TCFG[k].eps, true);
-      if (k == 1 && !pairsUp(t, f)) c.count("info_invalid_input_not_paired");
+      if (!pairsUp(t, f)) c.count("info_invalid_input_not_paired");
     }
     if (any) c.count("inputs_with_viol");
     return;
@@ -699,8 +698,8 @@ int main(int argc, char** argv) {
               c.viol("harness:classifier-mismatch:" + setStr(s), setStr(s), "analyseSet and analyseRing disagree");
           }
           account(c, s, si);
-          // invalid sequences run under all four termination configurations (length 7: the first three)
-          runSet(c, s, si, s[0].n >= 7 ? 3 : 4);
+          // invalid sequences run under all four termination configurations (length 7: the three without fast path)
+          runSet(c, s, si, s[0].n >= 7 ? 0xE : 0xF);
           if (si.valid && idx % 100003 == 0) c.sample(setStr(s));
         },
         CN, level >= 2 ? 25 : 23);
@@ -842,7 +841,7 @@ int main(int argc, char** argv) {
           PSet s = genHole1(idx);
           SetInfo si = analyseSet(s);
           account(c, s, si);
-          runSet(c, s, si, 2);
+          runSet(c, s, si, 0x6);
           if (si.valid && idx % 50021 == 0) c.sample(setStr(s));
         },
         CN, thorough ? 25 : 23);
@@ -856,7 +855,7 @@ int main(int argc, char** argv) {
           SetInfo si = analyseSet(s);
           if (!si.valid) c.viol("harness:holes2-not-valid:" + setStr(s), setStr(s), "constructed set is not valid");
           account(c, s, si);
-          runSet(c, s, si, 2);
+          runSet(c, s, si, 0x6);
           if (idx % 50021 == 0) c.sample(setStr(s));
         },
         CN, thorough ? 26 : 23);
@@ -899,7 +898,7 @@ int main(int argc, char** argv) {
           PSet s = genTwo(idx);
           SetInfo si = analyseSet(s);
           account(c, s, si);
-          runSet(c, s, si, 2);
+          runSet(c, s, si, 0x6);
           if (si.valid && idx % 70001 == 0) c.sample(setStr(s));
         },
         CN, thorough ? 25 : 22);
@@ -955,7 +954,7 @@ int main(int argc, char** argv) {
             c.count("inputs");
             c.count("invalid");
             c.distinct(setHash(s, false));
-            runSet(c, s, si, 4, cfg);
+            runSet(c, s, si, 1u << cfg);
             if (cfg == 0) c.sample(setStr(s));
           },
           CN);
@@ -984,15 +983,15 @@ int main(int argc, char** argv) {
         }
       }
     };
-    const int M = thorough ? 3 : 1;
+    const int M = thorough ? 6 : level == 1 ? 2 : 1;  // pool of 200 (ASan quick) / 400 / 1200 inputs
     const uint64_t seqN6 = seqOff[std::min(L, 6) + 1];  // sequences of length 3..6
-    take(genSeq, seqN6, 150 * M, true);
-    take(genSeq, seqN6, 70 * M, false);
-    take(genHole1, (uint64_t)outers1.size() * holes1.size() * orders1, 50 * M, true);
-    take(genHole1, (uint64_t)outers1.size() * holes1.size() * orders1, 20 * M, false);
-    take(genHoles2, outerOff.back(), 60 * M, true);
-    take(genTwo, twoN, 35 * M, true);
-    take(genTwo, twoN, 15 * M, false);
+    take(genSeq, seqN6, 75 * M, true);
+    take(genSeq, seqN6, 35 * M, false);
+    take(genHole1, (uint64_t)outers1.size() * holes1.size() * orders1, 25 * M, true);
+    take(genHole1, (uint64_t)outers1.size() * holes1.size() * orders1, 10 * M, false);
+    take(genHoles2, outerOff.back(), 30 * M, true);
+    take(genTwo, twoN, 17 * M, true);
+    take(genTwo, twoN, 8 * M, false);
     const uint64_t K = pool.size();
     const double epsList[2] = {-1, 0};
     std::vector<const char*> RN = {"pairs", "transitions", "pool", "differs_from_first"};
